@@ -34,6 +34,7 @@ import (
 	"os"
 	"path/filepath"
 	"strings"
+	"sync"
 	"time"
 
 	"github.com/spf13/viper"
@@ -98,6 +99,10 @@ type Options struct {
 	// funded state is a harness state; with Alloc == nil the genesis is written
 	// by the application itself.
 	Alloc map[common.Address]*big.Int
+	// AllocNonce gives accounts a non-zero nonce in that harness genesis (only
+	// together with the fresh-directory genesis described above; an address may
+	// appear here without appearing in Alloc).
+	AllocNonce map[common.Address]uint64
 	// BlockSize is config key block_size (tx-pool limits are 10× this). Default 5000.
 	BlockSize int
 	// ViaHooks makes Execute/Commit go through the application's gtypes.Hook
@@ -147,8 +152,8 @@ func Open(opt Options) (*Chain, error) {
 		}
 		fresh = false
 	}
-	if fresh && len(opt.Alloc) > 0 {
-		if err := writeFundedGenesis(opt.Dir, opt.Alloc); err != nil {
+	if fresh && len(opt.Alloc)+len(opt.AllocNonce) > 0 {
+		if err := writeFundedGenesis(opt.Dir, opt.Alloc, opt.AllocNonce); err != nil {
 			return nil, err
 		}
 	}
@@ -181,7 +186,7 @@ func (c *Chain) start() error {
 
 // writeFundedGenesis writes DefaultGenesis()+alloc into <dir>/chaindata and
 // the matching last-block record, using the repository's own functions.
-func writeFundedGenesis(dir string, alloc map[common.Address]*big.Int) error {
+func writeFundedGenesis(dir string, alloc map[common.Address]*big.Int, nonces map[common.Address]uint64) error {
 	db, err := evm.OpenDatabase(dir, "chaindata", evm.DatabaseCache, evm.DatabaseHandles)
 	if err != nil {
 		return err
@@ -189,6 +194,14 @@ func writeFundedGenesis(dir string, alloc map[common.Address]*big.Int) error {
 	g := ecore.DefaultGenesis()
 	for a, bal := range alloc {
 		g.Alloc[a] = ecore.GenesisAccount{Balance: new(big.Int).Set(bal)}
+	}
+	for a, n := range nonces {
+		acc := g.Alloc[a]
+		if acc.Balance == nil {
+			acc.Balance = new(big.Int)
+		}
+		acc.Nonce = n
+		g.Alloc[a] = acc
 	}
 	blk := g.ToBlock(db)
 	db.Close()
@@ -417,10 +430,20 @@ func (c *Chain) KVGet(key []byte) (val []byte, ok bool) {
 // which is nil until OnExecute has run once in this process lifetime — do not
 // call this on a freshly (re)opened chain before executing a block.
 func (c *Chain) CallContract(from *Account, to common.Address, data []byte) []byte {
-	q := Sign(from, TxSpec{Nonce: 0, To: &to, Gas: DefaultGas, Data: data})
-	res := c.App.Query(append([]byte{rtypes.QueryType_Contract}, q...))
+	k := string(from.Addr[:]) + string(to[:]) + string(data)
+	var q []byte
+	if v, ok := queryCache.Load(k); ok {
+		q = v.([]byte)
+	} else {
+		q = append([]byte{rtypes.QueryType_Contract}, Sign(from, TxSpec{Nonce: 0, To: &to, Gas: DefaultGas, Data: data})...)
+		queryCache.Store(k, q)
+	}
+	res := c.App.Query(q)
 	return res.Data
 }
+
+// queryCache keeps the signed query transactions (signing costs more than the query).
+var queryCache sync.Map
 
 // BalanceVia reads the balance of addr through the Store fixture deployed at
 // store (the application has no balance query).  Same gotcha as CallContract.
